@@ -316,6 +316,14 @@ def gen_cases(tier, seed):
                     cases.append({'family': 'e2e', 'seed': rng.randrange(1 << 30), 'kind': kind, 'end': end, 'multi': multi,
                                   'conc': rng.choice([1, 1, 2]), 'size': rng.choice([4, 5]) * 1024 * 1024 + rng.choice([0, 12345]),
                                   'max': 1024 * 1024.0})
+    # endpoints / checksum modes that make botocore read an upload body before it is sent (plain http: payload hash and checksum up front)
+    for rep in range(1 if quick else 4):
+        for end in ('path', 'seekable', 'nonseekable'):
+            for multi in (False, True):
+                for client in ({'scheme': 'http', 'checksum': 'when_supported'}, {'scheme': 'http', 'checksum': 'when_required'},
+                               {'scheme': 'https', 'checksum': 'when_required'}):
+                    cases.append({'family': 'e2e', 'seed': rng.randrange(1 << 30), 'kind': 'upload', 'end': end, 'multi': multi, 'conc': 1, 'client': client,
+                                  'size': rng.choice([3, 4]) * 1024 * 1024 + rng.choice([0, 4321]), 'max': 1024 * 1024.0})
     # bodies smaller than the limiter's 256 KiB read threshold (their bytes are charged when the body is closed): many small
     # transfers through one manager, and multipart transfers with small parts
     for rep in range(1 if quick else 4):
@@ -366,6 +374,8 @@ def run_e2e(case):
         import copy as _copy
 
         spec = {'seed': case['seed'], 'config': cfg, 'transfers': [_copy.deepcopy(t) for _ in range(count)], 'body_read_sizes': [16384], 'min_part': part}
+        if case.get('client'):
+            spec['client'] = case['client']
         burst = (2 * conc + 1) * 256 * 1024
         size = size * count
 
@@ -383,6 +393,16 @@ def run_e2e(case):
                               f'io_chunksize {io_chunk}) of {size} bytes in total at max_bandwidth={case["max"]} took {dur:.3f}s of virtual time; the limit '
                               f'requires at least {need:.3f}s', sym='e2e-not-throttled', family='e2e', kind=case['kind'],
                               body_below_read_threshold=body < 256 * 1024, io_chunk_below_read_threshold=io_chunk < 256 * 1024))
+            # the other direction: with one request at a time the limiter may not take much longer than the limit needs for the
+            # bytes moved (bytes must be charged once: reads botocore makes before the request is sent - payload hash / checksum
+            # over a plain-http endpoint - move nothing)
+            allowed = 1.3 * size / case['max'] + 0.6
+            if conc == 1 and dur > allowed:
+                viol.append(V(f'e2e {case["kind"]} ({case.get("end")}, {"multipart" if case.get("multi") else "single"}, client {case.get("client")}) of {size} '
+                              f'bytes at max_bandwidth={case["max"]} took {dur:.3f}s of virtual time with one request at a time; the limit needs '
+                              f'{size / case["max"]:.3f}s (bodies of {(part if case.get("multi") else case["size"])} bytes, io_chunksize {io_chunk})',
+                              sym='e2e-over-throttled', family='e2e', kind=case['kind'],
+                              small_body_vs_io_chunk=(part if case.get('multi') else case['size']) < 8 * io_chunk))
             nreq = len([e for e in obs.events if e['kind'] == 'api.begin' and e['op'] in ('UploadPart', 'GetObject', 'PutObject')])
             st = {'e2e_runs': 1, 'e2e_sleeps': len(sim.sleeps), 'e2e_' + case['kind'] + '_' + str(case.get('end')) + ('_multi' if case.get('multi') else '_single'): 1,
                   'e2e_data_requests': nreq}
